@@ -145,6 +145,8 @@ type C17Case struct {
 	// Derived: in the second run the options object is a by-value copy of an options object that was used before
 	// (for another population), with every setting overwritten: equal option values are equal inputs
 	Derived bool `json:"second_run_options_copied_from_used_object"`
+	// InPlace: the second run re-uses the very options object of earlier unrelated work, every setting overwritten in place
+	InPlace bool `json:"second_run_options_object_reused_in_place"`
 }
 
 // deriveOptions: a by-value copy of a used options object with every exported field set from want.
@@ -188,7 +190,12 @@ func genC17() *rapid.Generator[C17Case] {
 			c.Sc.Opts.PopSize = rapid.IntRange(4, 20).Draw(t, "pop size (modular)")
 			c.Sc.Epochs = rapid.IntRange(1, 4).Draw(t, "epochs (modular)")
 		}
-		c.Derived = rapid.IntRange(0, 2).Draw(t, "derived options") == 0
+		switch rapid.IntRange(0, 4).Draw(t, "derived options") {
+		case 0:
+			c.Derived = true
+		case 1:
+			c.Derived, c.InPlace = true, true
+		}
 		n := rapid.IntRange(0, 3).Draw(t, "unrelated scenarios")
 		for i := 0; i < n; i++ {
 			c.Others = append(c.Others, other.Draw(t, "unrelated"))
@@ -220,7 +227,25 @@ func CheckC17(c C17Case, rec *Rec) error {
 		if pop, err := genetics.NewPopulation(xorStart().Build(), u); err == nil {
 			_ = newExecutor(u).NextEpoch(u.NeatContext(), 0, pop)
 		}
-		buildOptions = func(o OptSpec) *neat.Options { return deriveOptions(u, o.Build()) }
+		first := true
+		buildOptions = func(o OptSpec) *neat.Options {
+			if c.InPlace && first {
+				// the same object (same address) with every exported field assigned
+				first = false
+				want := o.Build()
+				dv, sv := reflect.ValueOf(u).Elem(), reflect.ValueOf(want).Elem()
+				for i := 0; i < dv.NumField(); i++ {
+					if dv.Field(i).CanSet() {
+						dv.Field(i).Set(sv.Field(i))
+					}
+				}
+				return u
+			}
+			return deriveOptions(u, o.Build())
+		}
+		if c.InPlace {
+			rec.Class("second run with the options object of earlier work, settings overwritten in place")
+		}
 		rec.Class("second run with options copied from a used object")
 	}
 	d2, w2, _, err2 := evolve(sc)
